@@ -121,10 +121,20 @@ def Cases(tier):
                   'query': ['E', 'L', 'R'], 'ordered': ['L'],
                   'meta': {'features': ['directed_limit_zero_reader'],
                            'sig': {'limit': 0, 'plan': 'directed'}}})
+  # directed: top-K over multi-body aggregation (denotation / annotation
+  # forms), ordered predicate cloned by a functor
+  for j in range((3 if tier == 'quick' else 40) * len(families.C18_FAMILIES)):
+    name, fn = families.C18_FAMILIES[j % len(families.C18_FAMILIES)]
+    prog, query, ordered, feats = fn(rng)
+    cases.append({'id': 'df%d' % j, 'prog': prog, 'query': query,
+                  'ordered': ordered,
+                  'meta': {'features': feats, 'sig': {'plan': 'directed'}}})
   return cases + semrun.Reproducers(PROP)
 
 
-REQUIRED = ['directed_limit_zero_reader', 'limit_zero_without_order', 'denotation_form', 'annotation_form', 'limit_none', 'limit_zero',
+REQUIRED = ['fam_ordered_aggregate', 'fam_two_rules_denotation',
+            'fam_disjunction_denotation', 'fam_functor_ordered',
+            'directed_limit_zero_reader', 'limit_zero_without_order', 'denotation_form', 'annotation_form', 'limit_none', 'limit_zero',
             'limit_pos', 'consumer', 'plan_with', 'plan_nowith',
             'plan_noinject_consumer']
 
